@@ -348,6 +348,126 @@ def wsgi_stream_response(ctx, n, k, raise_at, kind="generator"):
         ctx.violation(f"wsgi-stream|exception-identity|{type(r.exc).__name__ if r.exc else 'none'}", case, repr(r.exc))
 
 
+def falsy_producer(ctx, iface, cls_name):
+    """the producer is an object that is FALSY when the response is built (a subscription whose __len__ is its backlog, now 0) and
+    hands out 3 items when iterated: everything is delivered, and its close() / aclose() is called"""
+    from baize import asgi, wsgi
+    sse = cls_name == "SendEventResponse"
+    item = (lambda i: {"data": str(i), "id": str(i)}) if sse else (lambda i: b"%d;" % i)
+    marks = {"closed": 0}
+    if iface == "wsgi":
+        class Sub:
+            def __len__(self):
+                return 0
+
+            def __iter__(self):
+                return iter([item(i) for i in range(3)])
+
+            def close(self):
+                marks["closed"] += 1
+        with drivers.fresh_sse_pool():
+            r = drivers.run_wsgi_guarded(getattr(wsgi, cls_name)(Sub()), drivers.to_environ(drivers.Req()))
+        body, exc = r.body, r.exc
+    else:
+        class ASub:
+            def __len__(self):
+                return 0
+
+            def __aiter__(self):
+                return self.run()
+
+            async def run(self):
+                for i in range(3):
+                    yield item(i)
+
+            async def aclose(self):
+                marks["closed"] += 1
+        lp = asyncio.new_event_loop()
+        try:
+            r = drivers.run_asgi(getattr(asgi, cls_name)(ASub()), drivers.to_scope(drivers.Req()), the_loop=lp)
+        finally:
+            lp.run_until_complete(lp.shutdown_asyncgens())
+            lp.close()
+        body, exc = r.body, r.exc
+    ctx.mon("falsy-producer-object")
+    case = {"class": f"{iface}.{cls_name}", "producer": "falsy object (len 0) that yields 3 items"}
+    ids = [int(x) for x in (re.findall(rb"id: (\d+)", body) if sse else [y for y in body.split(b";") if y])]
+    if exc is not None:
+        ctx.violation(f"falsy-producer|exception-{type(exc).__name__}|{iface}", case, repr(exc))
+    elif ids != [0, 1, 2]:
+        ctx.violation(f"falsy-producer|items-not-delivered|{iface}", case, f"delivered {ids}")
+
+
+def asgi_cancelled(ctx, cls_name, n, cancel_at, item_delay):
+    """the SERVER cancels the task that runs the response call (shutdown, a per-request timeout) at virtual time `cancel_at`: the call
+    ends with CancelledError then, the producer is closed (cleanup exactly once) and no task is left pending"""
+    from baize import asgi
+    sse = cls_name == "SendEventResponse"
+    loop = drivers.VLoop(max_iterations=200_000)
+    marks = {"entered": 0, "cleanup": 0}
+    sent = []
+
+    async def gen():
+        marks["entered"] += 1
+        try:
+            for i in range(n):
+                await asyncio.sleep(item_delay)
+                yield {"data": str(i), "id": str(i)} if sse else b"%d;" % i
+            await asyncio.sleep(1000)  # then silent: an event stream that waits for news
+        finally:
+            marks["cleanup"] += 1
+    out = {}
+
+    async def main():
+        async def receive():
+            await asyncio.Event().wait()
+
+        async def send(m):
+            sent.append(m)
+        resp = getattr(asgi, cls_name)(gen(), **({"ping_interval": 1.0} if sse else {}))
+        task = asyncio.ensure_future(resp(drivers.to_scope(drivers.Req()), receive, send))
+        await asyncio.sleep(cancel_at)
+        task.cancel()
+        t0 = loop.time()
+        try:
+            await asyncio.wait_for(asyncio.shield(asyncio.gather(task, return_exceptions=True)), 50)
+        except asyncio.TimeoutError:
+            out["still_running"] = True
+            task.cancel()
+            return
+        out["returned_after"] = loop.time() - t0
+        out["result"] = "cancelled" if task.cancelled() else repr(task.exception()) if task.exception() else "returned"
+        for _ in range(30):
+            await asyncio.sleep(0)
+        out["pending"] = [repr(t.get_coro())[:70] for t in asyncio.all_tasks() if t is not asyncio.current_task() and not t.done()]
+        out["cleanup_at_quiescence"] = marks["cleanup"]
+    case = {"class": "asgi." + cls_name, "scenario": "the server cancels the response task", "n": n, "cancel_at": cancel_at, "producer_delay": item_delay}
+    ctx.mon("asgi-task-cancelled")
+    try:
+        loop.run_until_complete(asyncio.wait_for(main(), 10_000))
+        loop.run_until_complete(loop.shutdown_asyncgens())
+    except Exception as e:  # noqa
+        ctx.violation(f"asgi-cancelled|harness-saw-{type(e).__name__}", case, repr(e)[:200])
+        return
+    finally:
+        try:
+            for t in asyncio.all_tasks(loop):
+                t.cancel()
+        except Exception:
+            pass
+        loop.close()
+    fam = "asgi-sse" if sse else "asgi-stream"
+    if out.get("still_running"):
+        ctx.violation(f"{fam}|cancellation-swallowed|call-keeps-running", case, f"50 virtual seconds after cancel(); {len(sent)} events sent so far")
+        return
+    if out["result"] != "cancelled":
+        ctx.violation(f"{fam}|cancelled-call-ended-with|{out['result'].split('(')[0]}", case, out["result"])
+    if out["pending"]:
+        ctx.violation(f"{fam}|task-still-pending-at-quiescence|after-cancellation", case, repr(out["pending"]))
+    if marks["entered"] and out["cleanup_at_quiescence"] != 1:
+        ctx.violation(f"{fam}|cleanup-ran-{out['cleanup_at_quiescence']}-times-by-quiescence|after-cancellation", case, "")
+
+
 def asgi_two_clients(ctx, cls_name, n, first_leaves_after, overlapped):
     """ONE ASGI response object over a re-iterable producer answers two connections (one after the other, or overlapping in
     time); the first client disconnects after `first_leaves_after` body events; the second stays: it must get all n items"""
@@ -1150,6 +1270,22 @@ def run(ctx):
         ctx.mon("overlapped-clients", 0)
         ctx.mon("pool-after-early-closes", 0)
     if ctx.shard == 0:
+        for iface in ("wsgi", "asgi"):
+            for cls_name in ("StreamResponse", "SendEventResponse"):
+                falsy_producer(ctx, iface, cls_name)
+                ctx.case_enum(True)
+    else:
+        ctx.mon("falsy-producer-object", 0)
+    if ctx.shard == 0:
+        for cls_name in ("StreamResponse", "SendEventResponse"):
+            for n in (0, 2):
+                for cancel_at in (0.0, 0.05, 0.25, 0.5, 1.5, 2.6, 7.0):
+                    for item_delay in (0.1, 0.4):
+                        asgi_cancelled(ctx, cls_name, n, cancel_at, item_delay)
+                        ctx.case_enum(True)
+    else:
+        ctx.mon("asgi-task-cancelled", 0)
+    if ctx.shard == 0:
         for cls_name in ("StreamResponse", "SendEventResponse"):
             for n in (1, 3, 6):
                 for k in (0, 1, 2):
@@ -1229,6 +1365,15 @@ def run(ctx):
 
 
 def replay(ctx, case):
+    if str(case.get("producer", "")).startswith("falsy object"):
+        iface, cls_name = case["class"].split(".")
+        falsy_producer(ctx, iface, cls_name)
+        ctx.case(1)
+        return
+    if case.get("scenario") == "the server cancels the response task":
+        asgi_cancelled(ctx, case["class"].split(".")[1], case["n"], case["cancel_at"], case["producer_delay"])
+        ctx.case(1)
+        return
     if case.get("scenario") == "one response object, two clients" and case.get("class", "").startswith("asgi."):
         asgi_two_clients(ctx, case["class"].split(".")[1], case["n"], case["first_client_leaves_after"], case["overlapped"])
         ctx.case(1)
